@@ -46,7 +46,10 @@ Clauses(ln, pv, rs) ==
      <<"InnerOuterExact.SelfTracedLabel", bad \cap rep = {}>>,
      <<"OwnersExact", \A t \in DOMAIN ln.tens :
            OwnersExactOne(t, {<<p[1], p[2]>> : p \in SeqSet(ln.tens[t].own)}, N)>>,
-     <<"SizesAgree", \A n \in DOMAIN N : SizesAgreeOne(N[n], T)>>,
+     \* (a view that shares tensors with a network which an algorithm then rewrites in place - replacing some of the
+     \*  shared tensors by new objects and resizing others - is left with a mixture by its *holder*; the driver names
+     \*  such views in `stale`: all their maps are still judged, only the size agreement is the holder's business)
+     <<"SizesAgree", \A n \in DOMAIN N : (Has(ln, "stale") /\ n \in SeqSet(ln.stale)) \/ SizesAgreeOne(N[n], T)>>,
      <<"SelectionExact", \A k \in DOMAIN ln.sel :
            LET q == ln.sel[k] IN
            SeqSet(q.got) = (IF q.kind = "inds" THEN SelectInds(N[q.n], T, SeqSet(q.q))
